@@ -351,7 +351,9 @@ def handle (l : String) : String :=
     | some w =>
       if w == "priced-order" || (multi && (w.startsWith "priced: stales" || w.startsWith "priced: length")) then (none, false)
       else match abs.1 with
-        | none => (some ("concrete: " ++ w), false)   -- the oracle model matches, the heap prediction does not
+        -- the oracle model matches, the heap prediction does not: legitimate only inside a multi-account operation, where a
+        -- reheap in Go map order makes the later tie-breaks unpredictable (counted as `weak`)
+        | none => (some ("concrete: " ++ w), multi)
         | some a => (some a, abs.2)
   let res := kv fo "res"
   let op := kv fi "op"
